@@ -67,4 +67,21 @@ def takesReadLock (t : LockTable) (name : String) : Bool :=
   | some evs => evs.contains .rlock
   | none => false
 
+/-- the state a DbImpl carries between calls (the fields of `type DbImpl struct`, regenerated as
+    `Generated.dbImplFields`) and what stands for each field in the model:
+    rootBucket — constant after Open; reloadLock — Lock.lean; db — the handle (`Sys.db` is the file it
+    is open on, swapped in stage 3 of the restore); restoreListeners — `Sys.listeners`;
+    txCompleteListeners — not touched by snapshot / restore (C07, C08).
+    Nothing else: in particular no copy of anything read from the file (snapshot id, timeline id) that
+    could survive the swap. -/
+def modelledFields : List (String × String) :=
+  [("rootBucket", "string"),
+   ("reloadLock", "sync.RWMutex"),
+   ("db", "*bbolt.DB"),
+   ("restoreListeners", "concurrenz.CopyOnWriteSlice[func()]"),
+   ("txCompleteListeners", "concurrenz.CopyOnWriteSlice[func(ctx MutateContext)]")]
+
+def stateModelled (fields : List (String × String)) (packageVars : List String) : Bool :=
+  fields == modelledFields && packageVars.isEmpty
+
 end StorageModel.C17
